@@ -19,8 +19,10 @@ package stats
 //@ guarded StatsCtx.enabled by confMu
 
 //@ func (s *StatsCtx) isIgnored(host string) (r0 bool)
+//@   property C08
 //@   requires held(s.confMu) || rheld(s.confMu)
-//@   modifies *
+//@   ensures r0 == s.ignored.Has(host)
+//@   modifies nothing
 //@ func (s *StatsCtx) setLimit(limit time.Duration)
 //@   requires held(s.confMu)
 //@   modifies *
@@ -256,4 +258,11 @@ package stats
 // the immediately invoked closure of handleStats takes confMu itself; it runs with no lock held
 //@ func (s *StatsCtx) handleStats$1()
 //@   requires nolocks()
+//@   modifies *
+
+// ---- C08: a name on the statistics ignore list, or an ignored client, is never counted ----
+//@ func (s *StatsCtx) ShouldCount(host string, _p1 uint16, _p2 uint16, ids []string) (r0 bool)
+//@   property C08
+//@   requires !held(s.confMu) && !rheld(s.confMu)
+//@   ensures ignored-name-not-counted: r0 ==> !s.ignored.Has(host)
 //@   modifies *
